@@ -60,6 +60,10 @@ def op_txt(op):
         return "LOAD %s %s" % (op["slot"], enc(op["data"]))
     if n == "ENV":
         return "ENV " + (",".join("%s=%s" % kv for kv in op["env"].items()) or "-")
+    if n == "HOLD":
+        return "LEN %s" % p
+    if n == "HOP":
+        return "HANDLE%s %s" % (op["h"], op_txt(dict(op["sub"], path=[])))
     if n == "LOADU":
         return "LOADU %s %s" % (op["slot"], enc(op["data"]))
     if n == "MERGE":
@@ -152,6 +156,8 @@ class EnvPatch:
         os.environ.update(self.saved)
 
 
+STALE_TAG = "{stale handle: obtained before a re-merge}"
+
 NOFILES = dict(system_prefix="/nonexistent-verif/sys/", user_prefix="/nonexistent-verif/usr/")
 
 
@@ -176,6 +182,12 @@ class Impl:
         self.colls = []  # (root collection, task path, expected configuration)
         self.classes = {}  # clone targets by index
         self.nfiles = 0
+        self.handles = {}   # held proxy handles: id -> {"p": proxy, "o": object, "keys": key path, "alive": bool}
+        self.stale = set()  # objects whose view is knowingly unmerged (load_*(merge=False) just happened)
+        self.violation = None  # what an edit through a held handle failed to do (see _handle_op)
+        self.stale_note = None  # first dict-likeness failure of a handle obtained before a re-merge (known finding)
+        self.merges = {}  # object -> number of re-merges so far, counted from the HISTORY (see after_op)
+        self._before = None  # root view of the addressed object before the current operation (when handles exist)
 
     def hand(self, label, data):
         d = copy.deepcopy(data)
@@ -215,10 +227,22 @@ class Impl:
 
     def apply(self, op):
         """returns the canonical result text; never raises"""
+        self._before = None
+        o = op.get("o", 0)
+        if self.handles and o < len(self.objs) and o not in self.stale and op["op"] not in ("NEW", "NEWF"):
+            try:
+                self._before = plain(self.objs[o])
+            except Exception:
+                self._before = None
         try:
-            return self._apply(op)
+            r = self._apply(op)
         except Exception as e:
-            return errname(e)
+            r = errname(e)
+        try:
+            self.after_op(op, r)
+        except Exception:
+            pass
+        return r
 
     def _apply(self, op):
         from invoke.config import Config
@@ -263,7 +287,31 @@ class Impl:
                 k = c.clone(into=self.classes[key])
             self.objs.append(k)
             return ABSENT
+        if n == "HOLD":
+            h = self.nav(c, op.get("path", []))
+            r = "N%d" % len(h)
+            self.handles[op["h"]] = {"p": h, "o": op.get("o", 0), "keys": [k for k, _ in op.get("path", [])], "alive": True,
+                                     "epoch": self.merges.get(op.get("o", 0), 0)}
+            return r
+        if n == "HOP":
+            r = self._handle_op(c, op)
+            if self.violation is None and self.stale_note is None:
+                try:
+                    why = self._dict_like(c, op, r)
+                except Exception as e:
+                    why = "dict-likeness check could not read the config: %s" % errname(e)
+                if why:
+                    hd = self.handles.get(op["h"])
+                    if hd and self.merges.get(hd["o"], 0) > hd["epoch"]:
+                        self.stale_note = why + " " + STALE_TAG
+                    else:
+                        self.violation = why
+            return r
         p = self.nav(c, op.get("path", []))
+        return self._proxy_op(p, op)
+
+    def _proxy_op(self, p, op):
+        n = op["op"]
         k = op.get("k")
         if n == "GI":
             return "v" + canon(deplain(p[k]))
@@ -316,6 +364,145 @@ class Impl:
         if n == "ITEMS":
             return "v" + canon({a: deplain(b) for a, b in p.items()})
         raise ValueError("unknown op " + n)
+
+    def _handle_op(self, c, op):
+        """An operation THROUGH A HELD HANDLE (a proxy obtained earlier and kept across other operations).
+
+        The handle may be detached from the current view (every re-merge rebuilds the view objects), so no
+        dict-likeness of what the handle READS is demanded.  Demanded (property text + what the code supports):
+        an edit through a handle whose section still exists and that returned normally must be EFFECTIVE AT THE
+        ROOT - a key it wrote reads back through the root with that value, a key it deleted / popped / cleared is
+        absent at the root (and therefore in any clone made afterwards, checked by the clone comparisons)."""
+        hd = self.handles.get(op["h"])
+        sub = op["sub"]
+        if hd is None:
+            return "E:key"  # the HOLD itself failed: no handle
+        p = hd["p"]
+        try:
+            listed = sorted(p.keys())
+        except Exception:
+            listed = []
+        try:
+            r = self._proxy_op(p, sub)
+        except Exception as e:
+            return errname(e)
+        n, k = sub["op"], sub.get("k")
+        if not hd["alive"] or n not in MUTATORS or hd["o"] in self.stale:
+            return r
+        sec = get_path(plain(c), hd["keys"])
+        if not isinstance(sec, dict):
+            return r
+        why = None
+        if n in ("SI", "SA"):
+            if k not in sec or canon(sec[k]) != canon(sub["v"]):
+                why = "wrote %s=%s, the root reads %s" % (k, canon(sub["v"]), canon(sec.get(k, "<absent>")))
+            elif canon(deplain(p[k])) != canon(sub["v"]):
+                why = "wrote %s=%s, the handle itself reads %s" % (k, canon(sub["v"]), canon(deplain(p[k])))
+        elif n in ("DI", "DA") or (n == "POP" and k in listed):
+            if k in sec:
+                why = "removed %s, the root still reads %s" % (k, canon(sec[k]))
+        elif n == "PI":
+            kk = sub.get("chosen")
+            if kk in sec:
+                why = "popitem removed %s, the root still reads it" % kk
+        elif n == "CLR":
+            left = [x for x in listed if x in sec]
+            if left:
+                why = "cleared keys %s, the root still reads %s" % (listed, left)
+        elif n == "SD" and k not in listed:  # (a key the handle already lists is only READ: may be stale)
+            if k not in sec or "v" + canon(sec[k]) != r:
+                why = "setdefault(%s) returned %s, the root reads %s" % (k, r, canon(sec.get(k, "<absent>")))
+        elif n == "UPD":
+            for src in (sub.get("m", {}), sub.get("kw", {})):
+                for kk, vv in src.items():
+                    if kk not in sec or canon(sec[kk]) != canon(vv):
+                        why = "update wrote %s=%s, the root reads %s" % (kk, canon(vv), canon(sec.get(kk, "<absent>")))
+        if why:
+            self.violation = "%s through the handle held on %s of object %d: %s" % (
+                op_txt(dict(sub, path=[])), ".".join(hd["keys"]), hd["o"], why)
+        return r
+
+    def _dict_like(self, c, op, r):
+        """THE PROPERTY for held handles: the result and the effect of an operation through a handle are what a
+        plain nested dict gives, i.e. the operation applied to the root's current view at the handle's path.
+        Returns a failure text or None."""
+        hd = self.handles.get(op["h"])
+        if hd is None or not hd["alive"] or hd["o"] in self.stale or self._before is None:
+            return None
+        if not isinstance(get_path(self._before, hd["keys"]), dict):
+            return None
+        twin = Ref()
+        twin.tree = copy.deepcopy(self._before)
+        try:
+            exp = twin.apply(dict(copy.deepcopy(op["sub"]), path=[[k, False] for k in hd["keys"]]))
+        except RefSkip:
+            return None
+        if exp != r:
+            return "%s through the handle held on %s of object %d returned %s, a held nested dict gives %s" % (
+                op_txt(dict(op["sub"], path=[])), ".".join(hd["keys"]), hd["o"], r, exp)
+        after = plain(c)
+        if canon(after) != canon(twin.tree):
+            return "after %s through the handle held on %s of object %d the config reads %s, the nested dict %s" % (
+                op_txt(dict(op["sub"], path=[])), ".".join(hd["keys"]), hd["o"], canon(after), canon(twin.tree))
+        return None
+
+    def _count_merge(self, op):
+        """does this (successful) operation re-merge its object?  Decided from the HISTORY: the kind of the operation
+        and what a nested dict holding the root view before it would do - not from the implementation."""
+        o = op.get("o", 0)
+        src, keys = op, [k for k, _ in op.get("path", [])]
+        if op["op"] == "HOP":
+            hd = self.handles.get(op["h"])
+            if hd is None:
+                return
+            src, keys = op["sub"], hd["keys"]
+        n = src["op"]
+        merging = n in ("LOAD", "MERGE", "ENV", "RUNTIME", "PROJECT", "SI", "SA", "DI", "DA", "PI")
+        sec = get_path(self._before, keys) if self._before is not None else ABSENT
+        if n == "SD":
+            merging = not (isinstance(sec, dict) and src.get("k") in sec)
+        elif n == "POP":
+            merging = not isinstance(sec, dict) or src.get("k") in sec
+        elif n == "CLR":
+            merging = not isinstance(sec, dict) or bool(sec)
+        elif n == "UPD":
+            merging = bool(src.get("m")) or bool(src.get("kw"))
+        if merging:
+            self.merges[o] = self.merges.get(o, 0) + 1
+
+    def after_op(self, op, r=ABSENT):
+        """bookkeeping after every operation: which objects are knowingly unmerged, which handles' sections still exist"""
+        o = op.get("o", 0)
+        if op["op"] == "LOADU":
+            self.stale.add(o)
+            return
+        if r.startswith("E:"):
+            return  # an operation that raised (absent key) did not re-merge anything
+        if op["op"] == "POP" and "d" in op and r == "v" + canon(op["d"]):
+            return  # pop(key, default) of an absent key: nothing happened
+        self._count_merge(op)
+        if op["op"] not in ("HOLD", "CLONE", "NEW", "NEWF", "HOP") + READS and not (
+                op["op"] == "SD" and o in self.stale):
+            self.stale.discard(o)
+        if o in self.stale or o >= len(self.objs):
+            return
+        try:
+            view = plain(self.objs[o])
+        except Exception:
+            return
+        tgt = None
+        src = op["sub"] if op["op"] == "HOP" else op
+        if src["op"] in ("SI", "SA", "SD", "UPD"):
+            base = self.handles[op["h"]]["keys"] if op["op"] == "HOP" and op["h"] in self.handles else [k for k, _ in op.get("path", [])]
+            vals = {src.get("k"): src.get("v", src.get("d"))} if src["op"] != "UPD" else dict(src.get("m", {}), **src.get("kw", {}))
+            tgt = [base + [kk] for kk, vv in vals.items() if isinstance(vv, dict)]
+        for hd in self.handles.values():
+            if hd["o"] != o or not hd["alive"]:
+                continue
+            if not isinstance(get_path(view, hd["keys"]), dict):
+                hd["alive"] = False  # the section was deleted / vanished: a plain dict handle would be detached too
+            elif tgt and any(t == hd["keys"][:len(t)] for t in tgt):
+                hd["alive"] = False  # the section (or an ancestor) was overwritten by a dict-valued write
 
     def _reload_file(self, c, kind, data):
         """point the runtime / project level at a new location and load it from a real file (removed afterwards);
@@ -720,4 +907,35 @@ def judge(ops, results, views, clone_ref=None):
                 d = diff(v, r.tree)
                 return {"at": i, "obj": j, "why": "after %s object %d reads %s, a nested dict that received the same operations reads %s"
                         % (op_txt(op), j, canon(v), canon(r.tree)), "diffs": d, "refs": refs, "kind": "view", "view": v}
+    return None
+
+
+def judge_handles(ops, tmpdir=None):
+    """ORACLE for histories with held proxy handles (no model): no internal error; every edit through a live handle
+    is effective at the root (Impl._handle_op); a clone - whenever made, and once more for every object at the end
+    - reads like its original.  Returns why or None."""
+    impl = Impl(tmpdir)
+    for op in ops:
+        r = impl.apply(op)
+        if is_internal(r):
+            return "internal error %s from %s" % (r, op_txt(op))
+        if impl.violation:
+            return impl.violation
+        if op["op"] == "CLONE" and not r.startswith("E:") and op.get("into") is None and op.get("o", 0) not in impl.stale:
+            a, b = canon(plain(impl.objs[op.get("o", 0)])), canon(plain(impl.objs[-1]))
+            if a != b:
+                return "after %s: clone reads %s, the original %s" % (" ; ".join(op_txt(x) for x in ops[max(0, ops.index(op) - 3):ops.index(op)]), b, a)
+    return final_clone_check(impl) or impl.stale_note
+
+
+def final_clone_check(impl):
+    for i, c in enumerate(list(impl.objs)):
+        if i in impl.stale:
+            continue
+        try:
+            a, b = canon(plain(c)), canon(plain(c.clone()))
+        except Exception as e:
+            return "object %d cannot be read / cloned at the end of the history: %s" % (i, errname(e))
+        if a != b:
+            return "at the end of the history a clone of object %d reads %s, the object itself %s" % (i, b, a)
     return None
